@@ -261,7 +261,22 @@ class ExprMixin:
             # a module-level constant: its literal value is read from the current source of that module on every run
             yield self.const(self.module_constant(r[1], e.id if len(r) < 3 else r[2], e), e), st
             return
+        if getattr(self.c, 'region', None) is not None and not self.specmode and self._is_enclosing_local(e.id):
+            # a region contract reads a local of the enclosing function that the contract does not declare: an arbitrary value
+            v = SV(ANY, fresh(e.id, AnyS))
+            st.env[e.id] = v
+            yield v, st
+            return
         _unsup('unbound name %s' % e.id, e)
+
+    def _is_enclosing_local(self, name):
+        fn = getattr(self, 'fn', None)
+        if fn is None:
+            return False
+        a = fn.args
+        if any(x.arg == name for x in a.posonlyargs + a.args + a.kwonlyargs) or (a.vararg and a.vararg.arg == name) or (a.kwarg and a.kwarg.arg == name):
+            return True
+        return any(isinstance(n, ast.Name) and n.id == name and isinstance(n.ctx, ast.Store) for n in ast.walk(fn))
 
     def module_constant(self, module, name, node):
         from .extract import module_ast
